@@ -27,14 +27,28 @@ from checks.parts import evaldiff
 
 CORPUS = os.path.join(common.VERIF, "corpus", "C02")
 
+NOT_MODELLED = [
+    "not modelled: adjacent nested functions are mutually visible in Never (typecheck.c seq_list_check_type); Src/Eval.v binds "
+    "them sequentially; the generator never lets an earlier sibling use a name that a later adjacent sibling defines",
+    "generator restriction: a closure capturing x is never followed, later in the same block, by a binding of x (known finding "
+    "late-shadow-after-closure, reported by C08 from corpus/C08)",
+    "generator restriction: blocks end with an expression item; no compile-time constant zero divisors; shift counts 0..31; "
+    "nil only as argument / assigned value; functions with var parameters are not used as first-class values (rules of the real "
+    "type checker, stricter than the evaluator)",
+    "tail-recursive loops run 150..450 iterations (30..250 outside the tailrec profile): the extracted evaluator keeps cells in a list "
+    "and is quadratic in the number of cells",
+    "`|>` and tuples are not in Src/Syntax.v: the pretty-printer spells f(a, b, c) as (a, b) : (T, T) |> f(c) (profile pipe); "
+    "the evaluator sees the plain call (equivalence incl. evaluation order confirmed on the unchanged tree)",
+]
+
 
 def report_corpus(ctx, nevrun, tmp, corpus_dir, prop):
     n = 0
     for c in evaldiff.run_corpus(nevrun, tmp, corpus_dir):
         n += 1
         if not c["ok"]:
-            ctx.violation(c["key"], "corpus program %s: real outcome %s, evaluator %s" % (
-                c["case"], c["real"], c["expected"]),
+            ctx.violation(c["key"], "corpus program %s (%s): real outcome %s, evaluator %s" % (
+                c["case"], c.get("note", ""), {k: c["real"][k] for k in ("kind", "value")}, {k: c["expected"][k] for k in ("kind", "value")}),
                 {"case": c["case"], "source": c["source"], "ast": c["ast"], "expected": c["expected"],
                  "observed": c["real"], "log": c["log"]})
     return n
@@ -102,6 +116,7 @@ def run(ctx):
         if m:
             what += " (minimised to %d nodes: evaluator %s, real %s)" % (m["nodes"], m["expected"], m["real"])
         ctx.violation(key, what, evaldiff.replay_of(c))
+    ctx.assumptions.extend(NOT_MODELLED)
     ctx.coverage["disagreeing_cases"] = len(r["c02"])
     ctx.coverage["corpus_programs"] = ncorpus
     evidence(ctx, r, "type-directed random programs (seed %d), one per (profile, derived seed, index); a program counts as "
